@@ -304,7 +304,7 @@ impl C23 {
         for _ in 0..reps {
             for q in FIRST_SLOW..QUERIES.len() { slow.push((q, Driver::SolveAll)); slow.push((q, Driver::Solve(6))); }
         }
-        C23 { depth, seed, n_fast: if tier == Tier::Quick { 2_500 } else { 40_000 }, slow, kb: load_kb(depth) }
+        C23 { depth, seed, n_fast: if tier == Tier::Quick { 12_000 } else { 150_000 }, slow, kb: load_kb(depth) }
     }
 }
 
